@@ -117,7 +117,8 @@ class PolarsCollectSchemaComponents(Contract):
             req[k] = bool(cur().decide(r, f"required[{k}]")) if not isinstance(r, bool) else r
             if req[k] and k not in present:
                 absent.append(k)
-        for a, v in (("absent_column_names", absent), ("regex_match_patterns", ListObj())):
+        for a, v in (("absent_column_names", absent), ("regex_match_patterns", ListObj()), ("expanded_column_names", frozenset(k for k in declared if k in present)),
+                     ("sorted_column_names", {k: None for k in declared if k in present}), ("destuttered_column_names", list(present))):
             info.attrs[a] = v
             info.attrs0[a] = v
         cur().ghost.update(present=present, req=req, cols=cols, sdt=sdt, declared=declared)
